@@ -20,17 +20,18 @@ def forced(ctx, harness, sig_ok_prefix, viol_signature, what):
 
 
 def run_lane(ctx, configs, layer="L-trace lane", what="lane", order_property=False):
-    """configs: list of (threads, ops, serial_only). Returns number of transitions explained.
+    """configs: list of (threads, ops, serial_only[, chain]) - chain=1 makes the serial queue target the concurrent one. Returns number of transitions explained.
     order_property: the calling property is about submission order (C02 / C04): synchronous fast-path overtakes classified
     by the harness as instances of finding F15 are reported (as that finding); the other properties ignore them."""
     h = ctx.harness("tr_lane")
     drv = ctx.driver()
     procs = []
-    for i, (thr, ops, serial) in enumerate(configs):
+    for i, cfgi in enumerate(configs):
+        thr, ops, serial = cfgi[:3]; chain = cfgi[3] if len(cfgi) > 3 else 0
         seed = ctx.seed * 1000 + i
         path = os.path.join(ctx.outdir, "%s-trace-%d.txt" % (what, i))
         f = open(path, "w")
-        procs.append((subprocess.Popen([h, str(seed), str(thr), str(ops), str(serial)], stdout=f, stderr=subprocess.DEVNULL), f, path, [h, str(seed), str(thr), str(ops), str(serial)]))
+        procs.append((subprocess.Popen([h, str(seed), str(thr), str(ops), str(serial), str(chain)], stdout=f, stderr=subprocess.DEVNULL), f, path, [h, str(seed), str(thr), str(ops), str(serial), str(chain)]))
     paths, items, events, overtakes = [], 0, 0, 0
     for p, f, path, cmd in procs:
         try:
@@ -57,6 +58,8 @@ def run_lane(ctx, configs, layer="L-trace lane", what="lane", order_property=Fal
             items += int(m.group(1)); events += int(m.group(2))
             mo = re.search(r"sync_fastpath_overtakes=(\d+)", ok[0])
             overtakes += int(mo.group(1)) if mo else 0
+        elif rc < 0 or rc > 3:
+            ctx.violation("lane workload died without a verdict (exit status %s): the library trapped or crashed" % rc, {"cmd": cmd, "trace": path}, signature="lane:crash")
         else:
             ctx.broken("lane harness produced no verdict", " ".join(cmd))
         paths.append(path)
